@@ -546,28 +546,59 @@ func (w *walker) mapRangeClass(rs *ast.RangeStmt) string {
 	if k, ok := rs.Key.(*ast.Ident); ok {
 		key = k.Name
 	}
-	// (a) every statement stores into a map under the range key (distinct keys: order cannot matter)
-	intoMap := len(rs.Body.List) > 0
-	for _, s := range rs.Body.List {
-		as, ok := s.(*ast.AssignStmt)
-		if !ok || len(as.Lhs) != 1 || as.Tok != token.ASSIGN {
-			intoMap = false
-			break
+	// (a) every statement stores into a map under the range key (distinct keys: order cannot matter); `if`/`else` whose
+	// branches do nothing else are allowed (the usual "merge if present, else copy")
+	var storesOnly func(list []ast.Stmt) bool
+	storesOnly = func(list []ast.Stmt) bool {
+		if len(list) == 0 {
+			return false
 		}
-		ix, ok := as.Lhs[0].(*ast.IndexExpr)
-		if !ok || key == "" || exprStr(ix.Index) != key {
-			intoMap = false
-			break
+		for _, st := range list {
+			switch x := st.(type) {
+			case *ast.AssignStmt:
+				if len(x.Lhs) != 1 || x.Tok != token.ASSIGN {
+					return false
+				}
+				ix, ok := x.Lhs[0].(*ast.IndexExpr)
+				if !ok || key == "" || exprStr(ix.Index) != key {
+					return false
+				}
+				tv, ok := w.info.Types[ix.X]
+				if !ok {
+					return false
+				}
+				if _, isMap := tv.Type.Underlying().(*types.Map); !isMap {
+					return false
+				}
+			case *ast.IfStmt:
+				if x.Init != nil {
+					if as, ok := x.Init.(*ast.AssignStmt); !ok || as.Tok != token.DEFINE {
+						return false
+					}
+				}
+				if !storesOnly(x.Body.List) {
+					return false
+				}
+				switch e := x.Else.(type) {
+				case nil:
+				case *ast.BlockStmt:
+					if !storesOnly(e.List) {
+						return false
+					}
+				case *ast.IfStmt:
+					if !storesOnly([]ast.Stmt{e}) {
+						return false
+					}
+				default:
+					return false
+				}
+			default:
+				return false
+			}
 		}
-		if tv, ok := w.info.Types[ix.X]; !ok {
-			intoMap = false
-			break
-		} else if _, isMap := tv.Type.Underlying().(*types.Map); !isMap {
-			intoMap = false
-			break
-		}
+		return true
 	}
-	if intoMap {
+	if storesOnly(rs.Body.List) {
 		return "stores under the range key into another map"
 	}
 	// (b) every statement appends to ONE slice, and that slice is sorted later in the same function
